@@ -369,7 +369,7 @@ func TestProp(t *testing.T) {
 		} else {
 			n := env.Pick(320, 10000)
 			start := time.Now()
-			vh.ForEach(n, 12, only, func(i int) { runHistory(w, rep, env, i) })
+			vh.ForEach(n, 32, only, func(i int) { runHistory(w, rep, env, i) })
 			rep.Extra("wall_histories_s", time.Since(start).Seconds())
 			if p := w.as.ErrLog.Panics() + w.px[0].ErrLog.Panics() + w.px[1].ErrLog.Panics(); p > 0 {
 				rep.Violate(stream, 0, "handler panic during sign-out histories", fmt.Sprintf("%d handler panics logged by the servers", p), nil)
